@@ -833,11 +833,14 @@ def replay(ctx: Ctx, path: str) -> int:
     obs = observe_batch([(case["h"], rec)])[0]
     n0 = len(ctx.violations)
     judge_case(ctx, rec, obs, w.get("origin", "replay"))
-    bad = len(ctx.violations) > n0 or bool(ctx.known_seen)
+    bad = len(ctx.violations) > n0
     if bad:
-        last = (ctx.violations or list(ctx.known_example.values()))[-1]
-        print("replay: still violated:", json.dumps(last["failed"][:3]))
+        print("replay: still violated:", json.dumps(ctx.violations[-1]["failed"][:3]))
         print(f"VIOLATION property=C05 replay={path}")
+    elif ctx.known_seen:
+        for k, ex in ctx.known_example.items():
+            print(f"KNOWN-FINDING: property=C05 {k}: {json.dumps(ex['failed'][:3])}")
+        print("replay: only the known finding remains")
     else:
         print("replay: holds now")
     ctx.cleanup()
